@@ -15,8 +15,10 @@
         (SessionLemmas.eval_lines).
    Polymorphic in the number algebra; no axioms. *)
 From SC.Model Require Import Base Num Types Config Case Match Post Parser Items Interp Rules.
+From SC.Model Require Import Chrono UiTokens Rx RuleFns Format Lexer Api.
+From SC.Model Require Corr.
 From SC.Spec Require Import Expr Env.
-From SC.Proofs Require Import C02_Parser.
+From SC.Proofs Require Import C02_Parser SessionLemmas.
 From Coq Require Import Arith Lia.
 
 Local Open Scope nat_scope.
@@ -429,4 +431,639 @@ Proof.
   rewrite <- (HR' n). unfold rho_of. rewrite run_latest, Ho. reflexivity.
 Qed.
 
+
+(* ================================================================== *)
+(* 4. Names                                                            *)
+(* ================================================================== *)
+
+(* ---- 4.1 several words: `w1 .. wn = e` assigns the key lowercase(w1 ++ .. ++ wn) and a new
+   variable remembers the name tokens ---- *)
+Definition name_toks (ws : list str) : list (token F) := map (@TText F) ws.
+Definition name_key (ws : list str) : str := to_lowercase (concat_str ws).
+Definition massign_toks (ws : list str) (e : expr F) : list (token F) :=
+  name_toks ws ++ TOperator OP_EQ :: toks_of e.
+
+Lemma nth_opt_app_here {A} (pre : list A) x r : nth_opt (pre ++ x :: r) (length pre) = Some x.
+Proof. induction pre as [|y pre IH]; [reflexivity|exact IH]. Qed.
+
+Lemma to_lowercase_app a b : to_lowercase (a ++ b) = to_lowercase a ++ to_lowercase b.
+Proof. unfold to_lowercase. apply flat_map_app. Qed.
+
+Lemma name_loop : forall (ws : list str) (pre : list (token F)) rhs vs idx fuel name,
+  length pre = S idx -> length ws < fuel ->
+  assign_name_loop fuel (pre ++ name_toks ws ++ TOperator OP_EQ :: rhs) vs idx name =
+  (S (S (idx + length ws)), name ++ to_lowercase (concat_str ws)).
+Proof.
+  induction ws as [|w ws IH]; intros pre rhs vs idx fuel name Hpre Hf;
+    (destruct fuel as [|fuel]; [cbn [length] in Hf; lia|]); cbn [assign_name_loop name_toks map app].
+  - rewrite <- Hpre, nth_opt_app_here. cbn [N.eqb OP_EQ Pos.eqb]. rewrite Hpre.
+    cbn [concat_str to_lowercase flat_map length]. rewrite app_nil_r, Nat.add_0_r. reflexivity.
+  - rewrite <- Hpre, nth_opt_app_here. rewrite Hpre.
+    change (pre ++ TText w :: map (@TText F) ws ++ TOperator OP_EQ :: rhs)
+      with (pre ++ [TText w] ++ name_toks ws ++ TOperator OP_EQ :: rhs).
+    rewrite app_assoc. rewrite IH.
+    + cbn [token_to_string concat_str length]. rewrite to_lowercase_app, app_assoc.
+      f_equal. lia.
+    + rewrite app_length. cbn [length]. lia.
+    + cbn [length] in Hf. lia.
+Qed.
+
+Lemma find_eq_name_toks : forall (ws : list str) (rhs : list (token F)),
+  find_index (is_op OP_EQ) (name_toks ws ++ TOperator OP_EQ :: rhs) = Some (length ws).
+Proof.
+  induction ws as [|w ws IH]; intro rhs; [reflexivity|].
+  cbn [name_toks map app find_index is_op]. fold (name_toks ws). rewrite IH. reflexivity.
+Qed.
+
+Theorem multiword_assign_parse : forall vs w ws (e : expr F), wf e = true ->
+  parse (massign_toks (w :: ws) e) vs =
+  (PAst (AAssignment (name_key (w :: ws)) (ast_of e)),
+   register (name_key (w :: ws)) (name_toks (w :: ws)) vs).
+Proof.
+  intros vs w ws e Hwf. unfold parse, parse_assignment, massign_toks.
+  rewrite find_eq_name_toks. cbv iota beta.
+  cbn [name_toks map app nth_opt]. cbv iota beta.
+  pose proof (name_loop ws [TText w] (toks_of e) vs 0
+                (S (length (TText w :: map (@TText F) ws ++ TOperator OP_EQ :: toks_of e)))
+                (to_lowercase (token_to_string vs (TText w))) eq_refl) as Hl.
+  cbn [app name_toks] in Hl. unfold name_toks in Hl. rewrite Hl; clear Hl.
+  2:{ cbn [length]. rewrite app_length, map_length. lia. }
+  cbv iota beta. cbn [Nat.pred Nat.add token_to_string].
+  change (TText w :: map (@TText F) ws ++ TOperator OP_EQ :: toks_of e)
+    with ((TText w :: map (@TText F) ws) ++ TOperator OP_EQ :: toks_of e).
+  assert (Hlen : length (TText w :: map (@TText F) ws) = S (length ws))
+    by (cbn [length]; rewrite map_length; reflexivity).
+  assert (Hsk : skipn (S (S (length ws))) ((TText w :: map (@TText F) ws) ++ TOperator OP_EQ :: toks_of e)
+                = toks_of e).
+  { rewrite skipn_app, Hlen. rewrite skipn_all2 by lia.
+    replace (S (S (length ws)) - S (length ws)) with 1 by lia. reflexivity. }
+  assert (Hfi : firstn (S (length ws)) ((TText w :: map (@TText F) ws) ++ TOperator OP_EQ :: toks_of e)
+                = TText w :: map (@TText F) ws).
+  { rewrite <- Hlen at 1. rewrite firstn_app, firstn_all, Nat.sub_diag. cbn [firstn]. apply app_nil_r. }
+  rewrite Hsk, Hfi.
+  pose proof (c02_parse_level_suffix e []
+     (parse_fuel ((TText w :: map (@TText F) ws) ++ TOperator OP_EQ :: toks_of e)) Hwf eq_refl) as Hp.
+  rewrite app_nil_r in Hp. rewrite Hp.
+  2:{ unfold parse_fuel. rewrite app_length. cbn [length]. lia. }
+  replace (to_lowercase w ++ to_lowercase (concat_str ws)) with (name_key (w :: ws))
+    by (unfold name_key; cbn [concat_str]; apply to_lowercase_app).
+  pose proof (ast_of_not_none e) as Hn.
+  unfold register. destruct (ast_of e); try congruence; reflexivity.
+Qed.
+
+(* ---- 4.2 letter case: the key is lower-cased, and token comparison is case-insensitive on
+   both sides, so neither the case of the definition nor that of the use matters ---- *)
+Theorem name_key_ci : forall ws ws',
+  to_lowercase (concat_str ws) = to_lowercase (concat_str ws') -> name_key ws = name_key ws'.
+Proof. intros ws ws' H. exact H. Qed.
+
+Lemma ci_eqb_lower_r x a a' : to_lowercase a = to_lowercase a' -> ci_eqb x a = ci_eqb x a'.
+Proof. intro H. unfold ci_eqb. rewrite H. reflexivity. Qed.
+
+Lemma ci_eqb_lower_l x a a' : to_lowercase a = to_lowercase a' -> ci_eqb a x = ci_eqb a' x.
+Proof. intro H. unfold ci_eqb. rewrite H. reflexivity. Qed.
+
+Lemma field_compare_ci a a' f : to_lowercase a = to_lowercase a' ->
+  token_field_compare (@TText F a) f = token_field_compare (@TText F a') f.
+Proof.
+  intro H. destruct f; cbn [token_field_compare]; try reflexivity.
+  - destruct expected as [v|]; cbn [opt_expected]; [apply ci_eqb_lower_r, H|reflexivity].
+  - induction items as [|it r IH]; cbn [existsb]; [reflexivity|].
+    rewrite IH, (ci_eqb_lower_r it a a' H). reflexivity.
+Qed.
+
+(* the use side: a token written in another letter case compares equal to whatever the
+   original compares equal to *)
+Theorem use_case_irrelevant : forall (ti : token_info F) a a' (p : token F),
+  ti_ty ti = Some (TText a) -> to_lowercase a = to_lowercase a' ->
+  info_eq_token (set_type ti (Some (TText a'))) p = info_eq_token ti p.
+Proof.
+  intros ti a a' p Hty H. unfold info_eq_token. rewrite Hty. cbn [set_type ti_ty].
+  destruct p; cbn [token_match]; try reflexivity.
+  - symmetry. apply ci_eqb_lower_l, H.
+  - symmetry. apply field_compare_ci, H.
+Qed.
+
+(* the definition side: the letter case of the recorded name tokens is irrelevant *)
+Theorem definition_case_irrelevant : forall (ti : token_info F) b b',
+  to_lowercase b = to_lowercase b' ->
+  info_eq_token ti (TText b) = info_eq_token ti (TText b').
+Proof.
+  intros ti b b' H. unfold info_eq_token. destruct (ti_ty ti) as [l|]; [|reflexivity].
+  destruct l; cbn [token_match]; try reflexivity.
+  - apply ci_eqb_lower_r, H.
+  - apply field_compare_ci, H.
+Qed.
+
+Theorem text_tokens_match_ci : forall (ti : token_info F) a b,
+  ti_ty ti = Some (TText a) -> to_lowercase a = to_lowercase b -> info_eq_token ti (TText b) = true.
+Proof.
+  intros ti a b Hty H. unfold info_eq_token. rewrite Hty. cbn [token_match]. unfold ci_eqb.
+  rewrite H. apply str_eqb_refl.
+Qed.
+
+(* find_location and pick_variable see the tokens of a line only through info_eq_token *)
+Definition same_matches (t t' : token_info F) : Prop := forall p, info_eq_token t p = info_eq_token t' p.
+
+Lemma prefix_match_congr : forall (ts ts' : list (token_info F)) pat,
+  Forall2 same_matches ts ts' -> prefix_match ts pat = prefix_match ts' pat.
+Proof.
+  intros ts ts' pat H. revert pat. induction H as [|t t' r r' Ht Hr IH]; intros [|p pr]; cbn [prefix_match];
+    try reflexivity.
+  rewrite (Ht p), IH. reflexivity.
+Qed.
+
+Lemma find_location_from_congr : forall (ts ts' : list (token_info F)) pat start,
+  Forall2 same_matches ts ts' -> find_location_from ts pat start = find_location_from ts' pat start.
+Proof.
+  intros ts ts' pat start H. revert start. induction H as [|t t' r r' Ht Hr IH]; intro start;
+    cbn [find_location_from]; [reflexivity|].
+  rewrite (prefix_match_congr (t :: r) (t' :: r') pat) by (constructor; assumption).
+  rewrite IH. reflexivity.
+Qed.
+
+Lemma find_location_congr : forall (ts ts' : list (token_info F)) pat,
+  Forall2 same_matches ts ts' -> find_location ts pat = find_location ts' pat.
+Proof.
+  intros ts ts' pat H. unfold find_location. destruct pat as [|p pr].
+  - destruct H; reflexivity.
+  - rewrite (find_location_from_congr ts ts' _ 0 H). reflexivity.
+Qed.
+
+Theorem pick_variable_congr : forall (vs : vars F) (ts ts' : list (token_info F)) best,
+  Forall2 same_matches ts ts' -> pick_variable vs ts best = pick_variable vs ts' best.
+Proof.
+  intros vs ts ts' best H. revert best. induction vs as [|[name vi] rest IH]; intro best;
+    cbn [pick_variable]; [reflexivity|].
+  rewrite (find_location_congr ts ts' _ H).
+  destruct (find_location ts' (v_tokens vi)) as [loc|st]; cbn [bind]; [apply IH|reflexivity].
+Qed.
+
+(* a line and the same line in another letter case *)
+Inductive recased : token_info F -> token_info F -> Prop :=
+| rc_same t : recased t t
+| rc_text t a a' : ti_ty t = Some (TText a) -> to_lowercase a = to_lowercase a' ->
+                   recased t (set_type t (Some (TText a'))).
+
+Theorem case_insensitive_use : forall (vs : vars F) (ts ts' : list (token_info F)) best,
+  Forall2 recased ts ts' -> pick_variable vs ts best = pick_variable vs ts' best.
+Proof.
+  intros vs ts ts' best H. apply pick_variable_congr.
+  induction H as [|t t' r r' Ht Hr IH]; constructor; [|exact IH].
+  destruct Ht as [t|t a a' Hty Hlow]; intro p; [reflexivity|].
+  symmetry. apply (use_case_irrelevant t a a' p Hty Hlow).
+Qed.
+
+(* ---- 4.3 closest, then longest ---- *)
+(* (st, sz) is at least as good a match as (st', sz'): it starts earlier, or at the same place
+   and is at least as long *)
+Definition at_least (st sz st' sz' : nat) : Prop := st < st' \/ (st = st' /\ sz' <= sz).
+
+Definition upd (best : option (nat * str * nat)) (loc : option nat) (name : str) (len : nat) :=
+  match loc with
+  | None => best
+  | Some start =>
+    match best with
+    | None => Some (start, name, len)
+    | Some (cstart, _, csize) =>
+      if (Nat.eqb start cstart && Nat.ltb csize len) || Nat.ltb start cstart
+      then Some (start, name, len) else best
+    end
+  end.
+
+Lemma upd_spec best loc name len :
+  (forall st n sz, best = Some (st, n, sz) ->
+     exists st0 n0 sz0, upd best loc name len = Some (st0, n0, sz0) /\ at_least st0 sz0 st sz) /\
+  (forall st, loc = Some st ->
+     exists st0 n0 sz0, upd best loc name len = Some (st0, n0, sz0) /\ at_least st0 sz0 st len) /\
+  (upd best loc name len = best \/ exists st, loc = Some st /\ upd best loc name len = Some (st, name, len)).
+Proof.
+  unfold upd, at_least. destruct loc as [start|]; [destruct best as [[[cs cn] csz]|]|].
+  - destruct (Nat.eqb_spec start cs); destruct (Nat.ltb_spec csz len); destruct (Nat.ltb_spec start cs);
+      cbn [andb orb]; (split; [|split]);
+      try (intros st n0 sz0 E; injection E as <- <- <-);
+      try (intros st E; injection E as <-);
+      try (left; reflexivity); try (right; eexists; split; reflexivity);
+      do 3 eexists; (split; [reflexivity|lia]).
+  - split; [|split].
+    + intros; discriminate.
+    + intros st E. injection E as <-. do 3 eexists. split; [reflexivity|lia].
+    + right. eexists. split; reflexivity.
+  - split; [|split].
+    + intros st n sz E. do 3 eexists. split; [exact E|lia].
+    + intros; discriminate.
+    + left. reflexivity.
+Qed.
+
+Lemma at_least_trans a b c d e f : at_least a b c d -> at_least c d e f -> at_least a b e f.
+Proof. unfold at_least. lia. Qed.
+
+Lemma pick_variable_cons name vi (rest : vars F) tail best :
+  pick_variable ((name, vi) :: rest) tail best =
+  do loc <- find_location tail (v_tokens vi);
+  pick_variable rest tail (upd best loc name (length (v_tokens vi))).
+Proof. reflexivity. Qed.
+
+(* for all variable lists: the chosen variable matches, and it is at least as good as every
+   variable that matches: none starts earlier, and none starting at the same place is longer *)
+Theorem pick_variable_best : forall (vs : vars F) tail best r,
+  pick_variable vs tail best = Ok r ->
+  (forall st n sz, best = Some (st, n, sz) ->
+     exists st0 n0 sz0, r = Some (st0, n0, sz0) /\ at_least st0 sz0 st sz) /\
+  (forall name vi st, In (name, vi) vs -> find_location tail (v_tokens vi) = Ok (Some st) ->
+     exists st0 n0 sz0, r = Some (st0, n0, sz0) /\ at_least st0 sz0 st (length (v_tokens vi))) /\
+  (r = best \/ exists name vi st, In (name, vi) vs /\ find_location tail (v_tokens vi) = Ok (Some st) /\
+                                  r = Some (st, name, length (v_tokens vi))).
+Proof.
+  induction vs as [|[name vi] rest IH]; intros tail best r H.
+  - cbn [pick_variable] in H. injection H as <-. split; [|split].
+    + intros st n sz E. do 3 eexists. split; [exact E|unfold at_least; lia].
+    + intros name vi st [].
+    + left. reflexivity.
+  - rewrite pick_variable_cons in H.
+    destruct (find_location tail (v_tokens vi)) as [loc|s0] eqn:E; cbn [bind] in H; [|discriminate].
+    destruct (IH tail _ r H) as (H1 & H2 & H3).
+    destruct (upd_spec best loc name (length (v_tokens vi))) as (U1 & U2 & U3).
+    split; [|split].
+    + intros st n sz Eb. destruct (U1 st n sz Eb) as (a & b & c & Eu & Hal).
+      destruct (H1 a b c Eu) as (a' & b' & c' & Er & Hal'). do 3 eexists. split; [exact Er|].
+      eapply at_least_trans; eassumption.
+    + intros name' vi' st [Hin|Hin] Hf.
+      * injection Hin as <- <-. rewrite E in Hf. injection Hf as ->.
+        destruct (U2 st eq_refl) as (a & b & c & Eu & Hal).
+        destruct (H1 a b c Eu) as (a' & b' & c' & Er & Hal'). do 3 eexists. split; [exact Er|].
+        eapply at_least_trans; eassumption.
+      * exact (H2 name' vi' st Hin Hf).
+    + destruct H3 as [H3|(n' & v' & st & Hin & Hf & Er)].
+      * destruct U3 as [U3|(st & El & Eu)].
+        -- left. congruence.
+        -- right. exists name, vi, st. split; [left; reflexivity|]. split; [rewrite E, El; reflexivity|congruence].
+      * right. exists n', v', st. split; [right; exact Hin|]. split; assumption.
+Qed.
+
+(* ---- 4.4 find_location: the least index at which the whole name matches ---- *)
+(* [occurs_at tokens pat k]: the whole pattern matches the tokens from index k on *)
+Definition occurs_at (tokens : list (token_info F)) (pat : list (token F)) (k : nat) : Prop :=
+  prefix_match (skipn k tokens) pat = true.
+
+Lemma find_from_some : forall (tokens : list (token_info F)) pat s r,
+  find_location_from tokens pat s = Some r ->
+  exists k, r = s + k /\ occurs_at tokens pat k /\ forall j, j < k -> ~ occurs_at tokens pat j.
+Proof.
+  unfold occurs_at. induction tokens as [|t rest IH]; intros pat s r H; cbn [find_location_from] in H; [discriminate|].
+  destruct (prefix_match (t :: rest) pat) eqn:E.
+  - injection H as <-. exists 0. split; [lia|]. split; [exact E|]. intros j Hj. lia.
+  - destruct (IH pat (S s) r H) as (k & -> & Hk & Hmin). exists (S k). split; [lia|]. split; [exact Hk|].
+    intros [|j] Hj; cbn [skipn]; [rewrite E; discriminate|]. apply Hmin. lia.
+Qed.
+
+Lemma find_from_none : forall (tokens : list (token_info F)) pat s,
+  find_location_from tokens pat s = None -> forall j, j < length tokens -> ~ occurs_at tokens pat j.
+Proof.
+  unfold occurs_at. induction tokens as [|t rest IH]; intros pat s H j Hj; cbn [length] in Hj; [lia|].
+  cbn [find_location_from] in H. destruct (prefix_match (t :: rest) pat) eqn:E; [discriminate|].
+  destruct j as [|j]; cbn [skipn]; [rewrite E; discriminate|]. apply (IH pat (S s) H). lia.
+Qed.
+
+Lemma occurs_in_range (tokens : list (token_info F)) p0 pat k :
+  occurs_at tokens (p0 :: pat) k -> k < length tokens.
+Proof.
+  unfold occurs_at. intro H. destruct (Nat.lt_ge_cases k (length tokens)) as [Hl|Hg]; [exact Hl|].
+  rewrite skipn_all2 in H by exact Hg. discriminate.
+Qed.
+
+(* soundness and completeness: Some k iff k is the least index where the whole name matches *)
+Theorem find_location_some_iff : forall (tokens : list (token_info F)) p0 pat k,
+  find_location tokens (p0 :: pat) = Ok (Some k) <->
+  (occurs_at tokens (p0 :: pat) k /\ forall j, j < k -> ~ occurs_at tokens (p0 :: pat) j).
+Proof.
+  intros tokens p0 pat k. unfold find_location. split.
+  - intro H. injection H as H. destruct (find_from_some _ _ _ _ H) as (k' & -> & Hk & Hmin).
+    split; assumption.
+  - intros [Hk Hmin]. f_equal.
+    destruct (find_location_from tokens (p0 :: pat) 0) as [r|] eqn:E.
+    + destruct (find_from_some _ _ _ _ E) as (k' & -> & Hk' & Hmin'). cbn [Nat.add]. f_equal.
+      destruct (Nat.lt_trichotomy k k') as [Hlt|[Heq|Hgt]]; [|symmetry; exact Heq|].
+      * exfalso. exact (Hmin' k Hlt Hk).
+      * exfalso. exact (Hmin k' Hgt Hk').
+    + exfalso. exact (find_from_none _ _ _ E k (occurs_in_range _ _ _ _ Hk) Hk).
+Qed.
+
+(* ... and None iff the name occurs nowhere *)
+Theorem find_location_none_iff : forall (tokens : list (token_info F)) p0 pat,
+  find_location tokens (p0 :: pat) = Ok None <-> forall j, ~ occurs_at tokens (p0 :: pat) j.
+Proof.
+  intros tokens p0 pat. unfold find_location. split.
+  - intro H. injection H as H. intros j Hj.
+    exact (find_from_none _ _ _ H j (occurs_in_range _ _ _ _ Hj) Hj).
+  - intro H. destruct (find_location_from tokens (p0 :: pat) 0) as [r|] eqn:E; [|reflexivity].
+    destruct (find_from_some _ _ _ _ E) as (k' & _ & Hk' & _). exfalso. exact (H k' Hk').
+Qed.
+
+(* it never panics on a name (names are non-empty: firstn end_ tokens with a first token) *)
+Theorem find_location_total : forall (tokens : list (token_info F)) p0 pat,
+  exists r, find_location tokens (p0 :: pat) = Ok r.
+Proof. intros. eexists. reflexivity. Qed.
+
+(* every occurrence is seen: wherever the name stands in the line, a match is reported, at
+   that place or at an earlier occurrence (formerly refuted by `a a b` for the name `a b`) *)
+Lemma prefix_match_app : forall (mid post : list (token_info F)) pat,
+  Forall2 (fun t p => info_eq_token t p = true) mid pat -> prefix_match (mid ++ post) pat = true.
+Proof.
+  intros mid post pat H. induction H as [|t p r pr Ht Hr IH]; cbn [app prefix_match].
+  - destruct post; reflexivity.
+  - rewrite Ht, IH. reflexivity.
+Qed.
+
+Theorem find_location_complete : forall (pre mid post : list (token_info F)) p0 pat,
+  Forall2 (fun t p => info_eq_token t p = true) mid (p0 :: pat) ->
+  exists k, k <= length pre /\ find_location (pre ++ mid ++ post) (p0 :: pat) = Ok (Some k).
+Proof.
+  intros pre mid post p0 pat H.
+  assert (Hocc : occurs_at (pre ++ mid ++ post) (p0 :: pat) (length pre)).
+  { unfold occurs_at. rewrite skipn_app, skipn_all, Nat.sub_diag. cbn [app skipn]. apply prefix_match_app, H. }
+  unfold find_location.
+  destruct (find_location_from (pre ++ mid ++ post) (p0 :: pat) 0) as [r|] eqn:E.
+  - destruct (find_from_some _ _ _ _ E) as (k & -> & Hk & Hmin). exists k. split; [|reflexivity].
+    destruct (Nat.le_gt_cases k (length pre)) as [Hle|Hgt]; [exact Hle|].
+    exfalso. exact (Hmin _ Hgt Hocc).
+  - exfalso. exact (find_from_none _ _ _ E _ (occurs_in_range _ _ _ _ Hocc) Hocc).
+Qed.
+
+(* when no earlier token matches the first token of the name, the place is exact *)
+Theorem find_location_finds : forall (pre mid post : list (token_info F)) p0 pat,
+  Forall (fun t => info_eq_token t p0 = false) pre ->
+  Forall2 (fun t p => info_eq_token t p = true) mid (p0 :: pat) ->
+  find_location (pre ++ mid ++ post) (p0 :: pat) = Ok (Some (length pre)).
+Proof.
+  intros pre mid post p0 pat Hpre Hmid. apply find_location_some_iff. split.
+  - unfold occurs_at. rewrite skipn_app, skipn_all, Nat.sub_diag. cbn [app skipn]. apply prefix_match_app, Hmid.
+  - intros j Hj. unfold occurs_at.
+    assert (Hs : exists t r, skipn j (pre ++ mid ++ post) = t :: r /\ info_eq_token t p0 = false).
+    { clear Hmid. revert j Hj. induction Hpre as [|t pre' Ht Hp IH]; intros j Hj; cbn [length] in Hj; [lia|].
+      destruct j as [|j]; [exists t; eexists; split; [reflexivity|exact Ht]|].
+      cbn [app skipn]. apply IH. lia. }
+    destruct Hs as (t & r & -> & Ht). cbn [prefix_match]. rewrite Ht. discriminate.
+Qed.
+
+(* the former witness of the defect: the name `a b` in `a a b` is found at index 1 *)
+Definition txt (w : string) : token_info F :=
+  {| ti_start := 0; ti_end := 0; ti_ty := Some (TText (s w)); ti_text := s w; ti_active := true |}.
+
+Theorem find_location_overlap_example :
+  find_location [txt "a"; txt "a"; txt "b"] [TText (s "a"); TText (s "b")] = Ok (Some 1).
+Proof. vm_compute. reflexivity. Qed.
+
 End WithNum.
+
+(* ================================================================== *)
+(* 5. Every line, every text                                           *)
+(* ================================================================== *)
+Section Lines.
+Context {F : Type} {NF : Num F}.
+
+(* ---- 5.1 the parser builds assignment-free trees below the top ---- *)
+Definition res_pure (r : @pres F * list (token F)) : Prop :=
+  match fst r with PAst a => pure a = true | _ => True end.
+
+Definition pure_at (f : nat) : Prop :=
+  (forall l ts, res_pure (parse_level f l ts)) /\
+  (forall l ts, res_pure (parse_sub f l ts)) /\
+  (forall l lft ts, pure lft = true -> res_pure (binary_loop f l lft ts)) /\
+  (forall l ts, res_pure (right_loop f l ts)) /\
+  (forall ts, res_pure (parse_unary f ts)) /\
+  (forall ts, res_pure (parse_paren f ts)).
+
+Lemma parse_basic_pure (ts : list (token F)) : res_pure (parse_basic ts).
+Proof. destruct ts as [|t r]; [exact I|]. destruct t; exact I || reflexivity. Qed.
+
+Lemma pure_all : forall f, pure_at f.
+Proof.
+  induction f as [|f (H1 & H2 & H3 & H4 & H5 & H6)].
+  - repeat split; intros; exact I.
+  - unfold pure_at, res_pure in *. repeat split.
+    + intros l ts. rewrite parse_level_S. specialize (H2 l ts).
+      destruct (parse_sub f l ts) as [[a|m|] r]; cbn [fst] in *; try exact I.
+      destruct a; try (apply H3; exact H2); reflexivity.
+    + intros l ts. rewrite parse_sub_S. destruct l; [apply H1|apply H1|apply H5].
+    + intros l lft ts Hl. rewrite binary_loop_S.
+      destruct (match_operator (level_ops l) ts) as [op|]; [|exact Hl].
+      specialize (H4 l (tl ts)).
+      destruct (right_loop f l (tl ts)) as [[a|m|] rest]; cbn [fst] in *; try exact I.
+      apply H3. cbn [pure]. rewrite Hl, H4. reflexivity.
+    + intros l ts. rewrite right_loop_S. specialize (H2 l ts).
+      destruct (parse_sub f l ts) as [[a|m|] r]; cbn [fst] in *; try exact I.
+      destruct a; try exact H2. apply H4.
+    + intros ts. rewrite parse_unary_S.
+      destruct (match_operator [OP_MINUS; OP_PLUS] ts) as [op|].
+      * destruct (tl ts) as [|t r'] eqn:Etl; [exact I|].
+        destruct t; try exact I; try reflexivity.
+        destruct (N.eqb c OP_LP); [|exact I].
+        specialize (H6 (TOperator c :: r')).
+        destruct (parse_paren f (TOperator c :: r')) as [[a|m|] rest]; cbn [fst] in *; try exact I.
+        exact H6.
+      * destruct (match_operator [OP_LP] ts); [apply H6|apply parse_basic_pure].
+    + intros ts. rewrite parse_paren_S. specialize (H1 LAddSub (tl ts)).
+      destruct (parse_level f LAddSub (tl ts)) as [[a|m|] r]; cbn [fst] in *; try exact I.
+      destruct a; try exact I;
+        (destruct (match_operator [OP_RP] r); [exact H1|exact I]).
+Qed.
+
+Lemma parse_level_pure f l (ts : list (token F)) a r :
+  parse_level f l ts = (PAst a, r) -> pure a = true.
+Proof.
+  intro H. destruct (pure_all f) as (H1 & _). specialize (H1 l ts). unfold res_pure in H1.
+  rewrite H in H1. exact H1.
+Qed.
+
+(* what Parser.parse can return, for EVERY token list: an assignment-free tree and the
+   session as it was, or `AAssignment name e` with an assignment-free e and the session with
+   the name registered *)
+Theorem parse_shape : forall (tokens : list (token F)) vs r vs',
+  parse tokens vs = (r, vs') ->
+  (vs' = vs /\ match r with PAst a => pure a = true | _ => True end) \/
+  (exists name toks e, r = PAst (AAssignment name e) /\ pure e = true /\
+                       vs' = register name toks vs).
+Proof.
+  intros tokens vs r vs' H. unfold parse, parse_assignment in H.
+  assert (Hplain : forall rest,
+             (fst (parse_level (parse_fuel tokens) LAddSub rest), vs) = (r, vs') ->
+             vs' = vs /\ match r with PAst a => pure a = true | _ => True end).
+  { intros rest E. injection E as <- <-. split; [reflexivity|].
+    destruct (parse_level (parse_fuel tokens) LAddSub rest) as [[a|m|] i] eqn:E; cbn [fst]; try exact I.
+    exact (parse_level_pure _ _ _ _ _ E). }
+  destruct (find_index (is_op OP_EQ) tokens) as [k|]; [|left; exact (Hplain _ H)].
+  destruct (nth_opt tokens 0) as [t0|]; [|left; exact (Hplain _ H)].
+  destruct (assign_name_loop (S (length tokens)) tokens vs 0 (to_lowercase (token_to_string vs t0)))
+    as [idx name].
+  destruct (parse_level (parse_fuel tokens) LAddSub (skipn idx tokens)) as [[a|m|] i] eqn:E.
+  - pose proof (parse_level_pure _ _ _ _ _ E) as Hp.
+    destruct a; try (right; exists name, (firstn (Nat.pred idx) tokens); eexists;
+                     injection H as <- <-; split; [reflexivity|split; [exact Hp|reflexivity]]).
+    left. exact (Hplain _ H).
+  - left. injection H as <- <-. split; [reflexivity|exact I].
+  - left. injection H as <- <-. split; [reflexivity|exact I].
+Qed.
+
+(* ---- 5.2 one line of text through Api.execute_text ---- *)
+Variable lx : lexdata.
+Variable ck : clock.
+
+(* [touches vs vs' name]: at most the variable [name] differs between vs and vs' *)
+Definition only_differs_at (vs vs' : vars F) (name : str) : Prop :=
+  forall k, k <> name -> assoc k vs' = assoc k vs.
+
+Definition line_failed (o : option (line_obs (F:=F))) : Prop :=
+  match o with
+  | None => True
+  | Some obs => match lo_result obs with LErr _ => True | LOk _ _ => False end
+  end.
+
+(* every line changes at most one variable *)
+Theorem line_changes_one_name : forall cfg lang vs line o vs',
+  execute_text lx ck cfg lang vs line = Ok (o, vs') ->
+  exists name, only_differs_at vs vs' name.
+Proof.
+  intros cfg lang vs line o vs' H. unfold execute_text in H.
+  destruct line as [|c0 l0]; [injection H as <- <-; exists []; intros k _; reflexivity|].
+  destruct (tokinize lx ck cfg lang vs (c0 :: l0)) as [[st tokens]|s0]; cbn [bind] in H; [|discriminate].
+  destruct (ts_infos st) as [|i0 infos]; [injection H as <- <-; exists []; intros k _; reflexivity|].
+  destruct (parse tokens vs) as [r vs1] eqn:Ep.
+  destruct (parse_shape tokens vs r vs1 Ep) as [[-> Hr]|(name & toks & e & -> & Hp & ->)].
+  - destruct r as [a|m|]; [|injection H as <- <-; exists []; intros k _; reflexivity|discriminate].
+    destruct (execute_ast (basic_execute lx ck) cfg vs a) as [[r2 vs2]|s2] eqn:Ee; cbn [bind] in H; [|discriminate].
+    assert (Hl : line_ast a = true) by (destruct a; try exact Hr; discriminate).
+    destruct (exec_line_frame (basic_execute lx ck) cfg vs a r2 vs2 Hl Ee) as (_ & _ & Hv).
+    assert (vs2 = vs).
+    { destruct r2; [|exact Hv]. destruct a; try exact Hv; discriminate. }
+    subst vs2. exists []. intros k _.
+    destruct r2; [destruct (format_result cfg lang (ck_year ck) a0); cbn [bind] in H; [|discriminate]|];
+      injection H as <- <-; reflexivity.
+  - destruct (execute_ast (basic_execute lx ck) cfg (register name toks vs) (AAssignment name e))
+      as [[r2 vs2]|s2] eqn:Ee; cbn [bind] in H; [|discriminate].
+    destruct (exec_line_frame (basic_execute lx ck) cfg (register name toks vs) (AAssignment name e) r2 vs2 Hp Ee) as (Hfr & _ & _).
+    exists name. intros k Hk.
+    assert (Hvs2 : assoc k vs2 = assoc k vs).
+    { rewrite (Hfr k) by (cbn [assigned]; congruence). apply register_other, Hk. }
+    destruct r2; [destruct (format_result cfg lang (ck_year ck) a); cbn [bind] in H; [|discriminate]|];
+      injection H as <- <-; exact Hvs2.
+Qed.
+
+(* a line that fails (error or nothing to show) leaves every existing variable exactly as it
+   was: either the session is untouched, or a NEW name was registered without a value *)
+Theorem failed_line_preserves_bindings : forall cfg lang vs line o vs',
+  execute_text lx ck cfg lang vs line = Ok (o, vs') -> line_failed o ->
+  (vs' = vs \/ exists name toks, assoc_mem name vs = false /\
+                 vs' = assoc_insert name {| v_tokens := toks; v_data := ANone |} vs) /\
+  (forall k, assoc_mem k vs = true -> assoc k vs' = assoc k vs).
+Proof.
+  intros cfg lang vs line o vs' H Hf.
+  assert (Hgoal : vs' = vs \/ exists name toks, assoc_mem name vs = false /\
+                 vs' = assoc_insert name {| v_tokens := toks; v_data := ANone |} vs).
+  { unfold execute_text in H.
+    destruct line as [|c0 l0]; [injection H as <- <-; left; reflexivity|].
+    destruct (tokinize lx ck cfg lang vs (c0 :: l0)) as [[st tokens]|s0]; cbn [bind] in H; [|discriminate].
+    destruct (ts_infos st) as [|i0 infos]; [injection H as <- <-; left; reflexivity|].
+    destruct (parse tokens vs) as [r vs1] eqn:Ep.
+    destruct (parse_shape tokens vs r vs1 Ep) as [[-> Hr]|(name & toks & e & -> & Hp & ->)].
+    - destruct r as [a|m|]; [|injection H as <- <-; left; reflexivity|discriminate].
+      destruct (execute_ast (basic_execute lx ck) cfg vs a) as [[r2 vs2]|s2] eqn:Ee; cbn [bind] in H; [|discriminate].
+      assert (Hl : line_ast a = true) by (destruct a; try exact Hr; discriminate).
+      destruct (exec_line_frame (basic_execute lx ck) cfg vs a r2 vs2 Hl Ee) as (_ & _ & Hv).
+      assert (vs2 = vs).
+      { destruct r2; [|exact Hv]. destruct a; try exact Hv; discriminate. }
+      subst vs2. left.
+      destruct r2; [destruct (format_result cfg lang (ck_year ck) a0); cbn [bind] in H; [|discriminate]|];
+        injection H as <- <-; reflexivity.
+    - destruct (execute_ast (basic_execute lx ck) cfg (register name toks vs) (AAssignment name e))
+        as [[r2 vs2]|s2] eqn:Ee; cbn [bind] in H; [|discriminate].
+      destruct (exec_line_frame (basic_execute lx ck) cfg (register name toks vs) (AAssignment name e) r2 vs2 Hp Ee) as (_ & _ & Hv).
+      destruct r2 as [v|m].
+      + destruct (format_result cfg lang (ck_year ck) v); cbn [bind] in H; [|discriminate].
+        injection H as <- <-. cbn [line_failed lo_result] in Hf. contradiction.
+      + injection H as <- <-. subst vs2. unfold register.
+        destruct (assoc_mem name vs) eqn:Em; [left; reflexivity|].
+        right. exists name, toks. split; [exact Em|reflexivity]. }
+  split; [exact Hgoal|]. intros k Hk.
+  destruct Hgoal as [->|(name & toks & Hn & ->)]; [reflexivity|].
+  apply assoc_insert_other. intro E. subst. congruence.
+Qed.
+
+(* ---- 5.3 whole texts (SessionLemmas: execute / execute_session = eval_lines) ---- *)
+(* failing lines, however many, never change an existing binding *)
+Theorem failed_lines_preserve_bindings : forall cfg lang lines vs os vs',
+  eval_lines lx ck cfg lang vs lines = Ok (os, vs') -> Forall line_failed os ->
+  forall k, assoc_mem k vs = true -> assoc k vs' = assoc k vs.
+Proof.
+  intros cfg lang lines. induction lines as [|l rest IH]; intros vs os vs' H Hf k Hk;
+    cbn [eval_lines] in H.
+  - injection H as <- <-. reflexivity.
+  - destruct (execute_text lx ck cfg lang vs l) as [[o v1]|s0] eqn:E1; [|discriminate].
+    destruct (eval_lines lx ck cfg lang v1 rest) as [[os1 v2]|s1] eqn:E2; [|discriminate].
+    injection H as <- <-. inversion Hf as [|? ? Ho Hos]; subst.
+    destruct (failed_line_preserves_bindings cfg lang vs l o v1 E1 Ho) as [_ H1].
+    rewrite (IH v1 os1 v2 E2 Hos k).
+    + apply H1, Hk.
+    + unfold assoc_mem in *. rewrite (H1 k Hk). exact Hk.
+Qed.
+
+End Lines.
+
+(* ================================================================== *)
+(* 6. Non-vacuity and the listed defects, through the whole model at   *)
+(*    binary64 (Corr.run of multi-line texts, vm_compute)              *)
+(* ================================================================== *)
+
+Fixpoint text_of (ls : list string) : str :=
+  match ls with
+  | [] => []
+  | [x] => s x
+  | x :: r => s x ++ 10%N :: text_of r
+  end.
+
+Definition CK : clock := {| ck_today := 20000; ck_year := 2024 |}.
+
+(* per line: None (empty slot), Some (true, output) or Some (false, error message) *)
+Definition outs (ls : list string) : list (option (bool * str)) :=
+  match Corr.run CK Corr.init_state [Corr.OExec (s "en") (text_of ls)] with
+  | [Corr.MRes r] =>
+    map (fun l => match l with
+                  | None => None
+                  | Some o => match lo_result o with
+                              | LErr m => Some (false, m)
+                              | LOk out _ => Some (true, out)
+                              end
+                  end) (er_lines r)
+  | _ => []
+  end.
+
+Definition ok (x : string) : option (bool * str) := Some (true, s x).
+Definition err (x : string) : option (bool * str) := Some (false, s x).
+
+Local Open Scope string_scope.
+
+Theorem examples :
+  outs ["x = 2"; "y = x"; "x = 7"; "y"] = [ok "2"; ok "2"; ok "7"; ok "2"] /\
+  outs ["a b = 3"; "a = 1"; "a b + a"] = [ok "3"; ok "1"; ok "4"] /\
+  outs ["x = 3"; "x = x + 1"; "x = x * x"; "x"] = [ok "3"; ok "4"; ok "16"; ok "16"] /\
+  outs ["My Var = 4"; "my var * 2"; "-MY VAR"] = [ok "4"; ok "8"; ok "-4"] /\
+  outs ["x = 3"; "x = 3 hours * 2 hours"; "x"; "x = 2 *"; "x + 1"]
+    = [ok "3"; err "Unknown calculation"; ok "3"; err "No more token"; ok "4"].
+Proof. vm_compute. repeat split; reflexivity. Qed.
+
+(* the two listed defects, reproduced by the model *)
+(* formerly a listed defect (fixed in /repo 542d9d0): an occurrence overlapping a failed partial
+   match is found *)
+Theorem overlap_example :
+  outs ["a b = 3"; "foo a b"; "a a b"; "a b c = 5"; "a a b a b c"] = [ok "3"; ok "3"; ok "3"; ok "5"; ok "8"].
+Proof. vm_compute. reflexivity. Qed.
+
+Theorem ghost_refuted :
+  outs ["a = 2"; "a b + 1"] = [ok "2"; ok "3"] /\
+  outs ["a = 2"; "a b = 3 hours * 2 hours"; "a b + 1"]
+    = [ok "2"; err "Unknown calculation"; err "Unknown calculation"].
+Proof. vm_compute. split; reflexivity. Qed.
+
+Theorem collision_refuted :
+  outs ["ab = 1"; "a b = 2"; "ab"; "a b"] = [ok "1"; ok "2"; ok "2"; err "No more token"].
+Proof. vm_compute. reflexivity. Qed.
